@@ -50,6 +50,7 @@ type c20Corpus struct {
 
 var dcases = &Cases{Kind: "delaunay", Imports: "From Sdfx Require Import Algo.DelaunayCorr.\nOpen Scope float_scope.", Type: "dcase", Fn: "dmismatches", PerShard: 40}
 var pcases = &Cases{Kind: "incircle", Imports: "From Sdfx Require Import Algo.DelaunayCorr.\nOpen Scope float_scope.", Type: "pcase", Fn: "pmismatches", PerShard: 1500}
+var slcases = &Cases{Kind: "slow", Imports: "From Sdfx Require Import Algo.DelaunayCorr.\nOpen Scope float_scope.", Type: "slcase", Fn: "slmismatches", PerShard: 60}
 var scases = &Cases{Kind: "super", Imports: "From Sdfx Require Import Algo.DelaunayCorr.\nOpen Scope float_scope.", Type: "scase", Fn: "smismatches", PerShard: 200}
 var did = 0
 
@@ -197,6 +198,46 @@ func checkC20(c *Ctx, r *Report) error {
 		}
 		delaunayCase(r, stratum, vs)
 	}
+	// the slow reference on its own: too few points (error), degenerate sets (collinear, lattice =
+	// cocircular, duplicates), unsorted order, and generic small sets: model vs Go triangle for triangle
+	ns := TierN(c.Tier, 60, 1200, 120)
+	for k := 0; k < ns; k++ {
+		var vs v2.VecSet
+		pt := func() v2.Vec { return v2.Vec{X: rng.Dyadic(8, 6), Y: rng.Dyadic(8, 6)} }
+		switch k % 6 {
+		case 0: // 0..2 points: error
+			for i := 0; i < k/6%3; i++ {
+				vs = append(vs, pt())
+			}
+		case 1: // collinear
+			a, d := pt(), pt()
+			for i := 0; i < 3+rng.Intn(4); i++ {
+				vs = append(vs, v2.Vec{X: a.X + float64(i)*d.X, Y: a.Y + float64(i)*d.Y})
+			}
+		case 2: // lattice points: many cocircular quadruples
+			w := 2 + rng.Intn(2)
+			for i := 0; i < w; i++ {
+				for j := 0; j < w+rng.Intn(2); j++ {
+					vs = append(vs, v2.Vec{X: float64(i), Y: float64(j)})
+				}
+			}
+		case 3: // duplicates
+			for i := 0; i < 3+rng.Intn(5); i++ {
+				vs = append(vs, pt())
+			}
+			vs = append(vs, vs[rng.Intn(len(vs))])
+		case 4: // generic, rounding regime, unsorted
+			for i := 0; i < 3+rng.Intn(10); i++ {
+				vs = append(vs, v2.Vec{X: rng.Uniform(-5, 5), Y: rng.Uniform(-5, 5)})
+			}
+		default: // generic dyadic, unsorted
+			for i := 0; i < 3+rng.Intn(10); i++ {
+				vs = append(vs, pt())
+			}
+		}
+		slowCase(vs)
+		r.Case(fmt.Sprintf("slow/%d", k%6), "slow:"+ptsKey(vs), len(vs) >= 3)
+	}
 	// InCircumcircle / Circumcenter: predicate cases incl. the horizontal-edge branches
 	np := TierN(c.Tier, 1500, 30000, 3000)
 	for k := 0; k < np; k++ {
@@ -217,6 +258,9 @@ func checkC20(c *Ctx, r *Report) error {
 		in, dn := t.InCircumcircle(p)
 		pcases.Add(fmt.Sprintf("(%d%%N, (%s,%s), (%s,%s), (%s,%s), (%s,%s), %s, %s)", did, CF(a.X), CF(a.Y), CF(b.X), CF(b.Y), CF(cc.X), CF(cc.Y), CF(p.X), CF(p.Y), CB(in), CB(dn)))
 		r.Case("incircle", fmt.Sprintf("ic:%x,%x,%x,%x,%x,%x,%x,%x", a.X, a.Y, b.X, b.Y, cc.X, cc.Y, p.X, p.Y), true)
+	}
+	if err := slcases.Write(c.Out); err != nil {
+		return err
 	}
 	if err := scases.Write(c.Out); err != nil {
 		return err
@@ -391,6 +435,9 @@ func delaunayCase(r *Report, stratum string, in v2.VecSet) {
 		}
 		dcases.Add(fmt.Sprintf("(%d%%N, %s, %s)", did, CList(ps), CList(tl)))
 	}
+	if n <= 14 {
+		slowCase(vs)
+	}
 	mn, mx := vs.Min(), vs.Max()
 	L := math.Max(mx.X-mn.X, mx.Y-mn.Y)
 	// empty circumcircle, with a margin so that only well-defined failures count
@@ -434,6 +481,25 @@ func delaunayCase(r *Report, stratum string, in v2.VecSet) {
 	if !cloneTris(ts).Equals(cloneTris(slow)) {
 		r.Violate(key, fmt.Sprintf("fast (%d triangles) differs from the slow reference (%d triangles) on a robustly general-position set", len(ts), len(slow)), input)
 	}
+}
+
+// slowCase: Delaunay2dSlow on these points (in this order) against the Gallina model
+// Algo/DelaunaySlow.v, triangle for triangle in emission order (error <-> None).
+func slowCase(vs v2.VecSet) {
+	did++
+	var ps, tl []string
+	for _, p := range vs {
+		ps = append(ps, fmt.Sprintf("(%s,%s)", CF(p.X), CF(p.Y)))
+	}
+	ts, err := render.Delaunay2dSlow(append(v2.VecSet{}, vs...))
+	if err != nil {
+		slcases.Add(fmt.Sprintf("(%d%%N, %s, None)", did, CList(ps)))
+		return
+	}
+	for _, t := range ts {
+		tl = append(tl, fmt.Sprintf("(%d,%d,%d)%%nat", t[0], t[1], t[2]))
+	}
+	slcases.Add(fmt.Sprintf("(%d%%N, %s, Some %s)", did, CList(ps), CList(tl)))
 }
 
 func ptsList(vs v2.VecSet) [][2]float64 {
